@@ -6,7 +6,6 @@ import (
 	"fmt"
 	"math"
 	"os"
-	"sync"
 	"sync/atomic"
 
 	"github.com/codenotary/immudb/embedded/htree"
@@ -57,7 +56,48 @@ func (t *tally) flush() {
 // job: one worker's view of a primary history (shared, read-only) plus its private counters.
 type job struct {
 	*Prim
-	t tally
+	t  tally
+	sc scratch
+}
+
+// scratch: reusable buffers for the altered copy of a response (one allocation-free deep copy per evaluation).
+type scratch struct {
+	r      Resp
+	p      store.DualProof
+	hs, ht store.TxHeader
+	lp     store.LinearProof
+	la     store.LinearAdvanceProof
+	ips    [][]H
+}
+
+func (sc *scratch) load(base *Resp) *Resp {
+	b := base.P
+	sc.hs, sc.ht = *b.SourceTxHeader, *b.TargetTxHeader
+	sc.p.SourceTxHeader, sc.p.TargetTxHeader = &sc.hs, &sc.ht
+	sc.p.InclusionProof = append(sc.p.InclusionProof[:0], b.InclusionProof...)
+	sc.p.ConsistencyProof = append(sc.p.ConsistencyProof[:0], b.ConsistencyProof...)
+	sc.p.LastInclusionProof = append(sc.p.LastInclusionProof[:0], b.LastInclusionProof...)
+	sc.p.TargetBlTxAlh = b.TargetBlTxAlh
+	sc.p.LinearProof, sc.p.LinearAdvanceProof = nil, nil
+	if b.LinearProof != nil {
+		sc.lp.SourceTxID, sc.lp.TargetTxID = b.LinearProof.SourceTxID, b.LinearProof.TargetTxID
+		sc.lp.Terms = append(sc.lp.Terms[:0], b.LinearProof.Terms...)
+		sc.p.LinearProof = &sc.lp
+	}
+	if la := b.LinearAdvanceProof; la != nil {
+		sc.la.LinearProofTerms = append(sc.la.LinearProofTerms[:0], la.LinearProofTerms...)
+		for len(sc.ips) < len(la.InclusionProofs) {
+			sc.ips = append(sc.ips, nil)
+		}
+		sc.la.InclusionProofs = sc.la.InclusionProofs[:0]
+		for i, ip := range la.InclusionProofs {
+			sc.ips[i] = append(sc.ips[i][:0], ip...)
+			sc.la.InclusionProofs = append(sc.la.InclusionProofs, sc.ips[i])
+		}
+		sc.p.LinearAdvanceProof = &sc.la
+	}
+	sc.r.Proven, sc.r.P = base.Proven, &sc.p
+	return &sc.r
 }
 
 func viol(sig, detail string, replay any) {
@@ -702,7 +742,7 @@ func (p *job) apply(tr stateRef, base *Resp, class string, alts ...Alt) {
 }
 
 func (p *job) applyAPI(api string, tr stateRef, base *Resp, class string, alts ...Alt) {
-	r := &Resp{Proven: base.Proven, P: cloneDual(base.P)}
+	r := p.sc.load(base)
 	ok := func() (ok bool) {
 		defer func() {
 			if recover() != nil {
@@ -872,6 +912,7 @@ func (p *job) sessions(start stateRef, deep bool) {
 			if !acc {
 				continue
 			}
+			via := relOf(start, honestResp(w, start.id, t))
 			if bad == "" && w != start.w {
 				p.t.legit++
 			}
@@ -895,7 +936,7 @@ func (p *job) sessions(start stateRef, deep bool) {
 						}
 						if got, want := hd.Alh(), start.w.commit(start.id, j); got != want {
 							p.t.equiv++
-							viol(fmt.Sprintf("accepts-equivocation api=VerifyDualProof first-trusted=%v steps=%s:%d,%s:%d reread-tx=%d hist=%v", start, w.name, t, w.name, u, j, p.cfg),
+							viol(fmt.Sprintf("accepts-equivocation api=VerifyDualProof case=%s first-trusted=%v steps=%s:%d,%s:%d reread-tx=%d hist=%v", via, start, w.name, t, w.name, u, j, p.cfg),
 								fmt.Sprintf("session: the client trusts %v, so tx %d has Alh %x (BlTxID of tx %d is %d). It is shown tx %d, then tx %d of the adversary's material %s (every proof verifies, state advances). "+
 									"Then a proof of tx %d with Alh %x verifies against its state: two different transactions %d were accepted in one session.",
 									start, j, want[:6], start.id, start.w.bl(start.id), t, u, w.name, j, got[:6], j),
@@ -918,48 +959,54 @@ func (p *job) sessions(start stateRef, deep bool) {
 	}
 }
 
-var primCache sync.Map
-
-type primSlot struct {
-	once sync.Once
-	p    *Prim
-	left int32
-}
-
 func runStore(cfgs []HistCfg, pairs bool) {
-	type jb struct{ ci, s int }
-	var jobs []jb
-	for ci, cf := range cfgs {
-		primCache.Store(ci, &primSlot{left: int32(cf.N)})
-		for s := 1; s <= cf.N; s++ {
-			jobs = append(jobs, jb{ci, s})
+	const batch = 16 // primaries built and kept in memory at a time
+	skipped, total := 0, 0
+	for lo := 0; lo < len(cfgs); lo += batch {
+		hi := lo + batch
+		if hi > len(cfgs) {
+			hi = len(cfgs)
+		}
+		prims := make([]*Prim, hi-lo)
+		c.ParallelFor(hi-lo, func(i int) {
+			if !c.Expired() {
+				prims[i] = buildPrim(cfgs[lo+i])
+			}
+		})
+		type jb struct{ pi, s int }
+		var jobs []jb
+		for s := 1; s <= cfgs[lo].N; s++ { // s-major order: every history gets its low trusted ids done first
+			for pi := range prims {
+				if s <= cfgs[lo+pi].N {
+					jobs = append(jobs, jb{pi, s})
+				}
+			}
+		}
+		total += len(jobs)
+		var skip int64
+		c.ParallelFor(len(jobs), func(i int) {
+			j := jobs[i]
+			if c.Expired() || prims[j.pi] == nil {
+				atomic.AddInt64(&skip, 1)
+				return
+			}
+			p := &job{Prim: prims[j.pi]}
+			p.soundS(j.s, pairs)
+			p.sessions(stateRef{p.H, j.s}, true)
+			p.sessions(stateRef{p.forks[p.H.n/2], j.s}, false)
+			p.rawAPIs(j.s)
+			p.t.flush()
+		})
+		skipped += int(skip)
+		for _, p := range prims {
+			if p != nil {
+				c.Add("worlds", int64(len(p.worlds)))
+				c.Add("primary_histories", 1)
+			}
 		}
 	}
-	var skipped int64
-	c.ParallelFor(len(jobs), func(i int) {
-		j := jobs[i]
-		v, _ := primCache.Load(j.ci)
-		slot := v.(*primSlot)
-		if c.Expired() {
-			atomic.AddInt64(&skipped, 1)
-			return
-		}
-		slot.once.Do(func() { slot.p = buildPrim(cfgs[j.ci]) })
-		p := &job{Prim: slot.p}
-		p.soundS(j.s, pairs)
-		p.sessions(stateRef{p.H, j.s}, true)
-		p.sessions(stateRef{p.forks[p.H.n/2], j.s}, false)
-		p.rawAPIs(j.s)
-		p.t.flush()
-		if atomic.AddInt32(&slot.left, -1) == 0 {
-			c.Add("worlds", int64(len(p.worlds)))
-			c.Add("primary_histories", 1)
-			slot.p = nil
-			primCache.Delete(j.ci)
-		}
-	})
 	if skipped > 0 {
-		c.CapHit(fmt.Sprintf("store level: %d of %d (history, trusted state) jobs not run (time budget)", skipped, len(jobs)))
+		c.CapHit(fmt.Sprintf("store level: %d of %d (history, trusted state) jobs not run (time budget)", skipped, total))
 	}
 }
 
